@@ -152,9 +152,7 @@ def sa_harness(is_async):
         it.path.ghost["now"] = g["now"]
         attempt = fint("attempt")
         w.attempt = attempt
-        ctx = Obj(it.tree.cls("redress.strategies:BackoffContext"),
-                  {"attempt": attempt, "classification": None, "prev_sleep_s": None, "remaining_s": None, "cause": "exception"},
-                  frozen=True, ident=z3.Int(fresh_name("ctx")))
+        ctx = sv.fresh_ctx(it, attempt)
         decision = Obj(it.tree.cls("redress.policy.state:_RetryDecision"), {"action": "retry", "sleep_s": freal("sleep_s"), "context": ctx},
                        frozen=True)
         r = call_catch(it, FuncV(it.tree.func(key)), [], {"state": st, "attempt": attempt, "decision": decision,
@@ -411,13 +409,13 @@ def t_forward_sugar(it):
             r = call_catch(it, BoundV(obj, FuncV(it.tree.func(wkey))), [func] if m != "context" else [], kw)
             base = wkey
             tname, targs, tkw = captured.get("call", (None, (), {}))
-            p.oblige(f"{base}/C12/forwards-to-the-inner-policy", tname is not None and targs and targs[0] is inner, prop=P)
+            p.oblige(f"{base}/C12/forwards-to-the-inner-policy", tname is not None and targs and targs[0] is inner, prop=None)
             if m != "context":
-                p.oblige(f"{base}/C12/func-forwarded", len(targs) > 1 and targs[1] is func, prop=P)
+                p.oblige(f"{base}/C12/func-forwarded", len(targs) > 1 and targs[1] is func, prop=None)
             for n in target_params(it, f"{tkey}.{m}"):
                 if n == "func":
                     continue
-                p.oblige(f"{base}/C12/forwards/{n}", n in tkw and tkw[n] is kw.get(n), prop=P)
+                p.oblige(f"{base}/C12/forwards/{n}", n in tkw and tkw[n] is kw.get(n), prop=None)
         else:
             ckey = f"redress.policy.context:{cls}.call"
             names = PARAMS_CALL
@@ -430,20 +428,20 @@ def t_forward_sugar(it):
             r = call_catch(it, BoundV(obj, FuncV(it.tree.func(ckey))), [user, a1], {"k": k1})
             base = ckey
             tname, targs, tkw = captured.get("call", (None, (), {}))
-            p.oblige(f"{base}/C12/calls-policy.call-once", tname is not None and targs and targs[0] is polobj, prop=P)
+            p.oblige(f"{base}/C12/calls-policy.call-once", tname is not None and targs and targs[0] is polobj, prop=None)
             for n in names:
-                p.oblige(f"{base}/C12/forwards/{n}", n in tkw and tkw[n] is fields[n], prop=P)
+                p.oblige(f"{base}/C12/forwards/{n}", n in tkw and tkw[n] is fields[n], prop=None)
             thunk = targs[1] if len(targs) > 1 else None
             called = it.call_value(thunk, [], {}) if thunk is not None else None
             p.oblige(f"{base}/C12/thunk-invokes-func-with-the-given-arguments",
-                     isinstance(called, tuple) and called[0] == "called" and called[1] == (a1,) and called[2] == {"k": k1}, prop=P)
+                     isinstance(called, tuple) and called[0] == "called" and called[1] == (a1,) and called[2] == {"k": k1}, prop=None)
         if r[0] == "ok":
             v = r[1]
             if isinstance(v, tuple) and v and v[0] == "coro_done":
                 v = v[1]
-            p.oblige(f"{base}/C12/returns-what-the-target-returns", v is captured.get("returned"), prop=P)
+            p.oblige(f"{base}/C12/returns-what-the-target-returns", v is captured.get("returned"), prop=None)
         else:
-            p.oblige(f"{base}/C12/raises-what-the-target-raises", r[1] is captured.get("raised"), prop=P)
+            p.oblige(f"{base}/C12/raises-what-the-target-raises", r[1] is captured.get("raised"), prop=None)
         p.cover(f"{base}/forwarding")
 
     return h
@@ -483,13 +481,13 @@ def t_forward_retry(it):
         r = call_catch(it, BoundV(obj, FuncV(it.tree.func(f"{ckey}.{m}"))), [func], call_level)
         base = f"{ckey}.{m}"
         kw = captured.get("kw")
-        p.oblige(f"{base}/C12/reaches-{tgt}-exactly-once", kw is not None and not captured.get("args"), prop=P)
+        p.oblige(f"{base}/C12/reaches-{tgt}-exactly-once", kw is not None and not captured.get("args"), prop=None)
         if kw is None:
             return
-        p.oblige(f"{base}/C12/forwards/policy-is-self", kw.get("policy") is obj, prop=P)
-        p.oblige(f"{base}/C12/forwards/func", kw.get("func") is func, prop=P)
+        p.oblige(f"{base}/C12/forwards/policy-is-self", kw.get("policy") is obj, prop=None)
+        p.oblige(f"{base}/C12/forwards/func", kw.get("func") is func, prop=None)
         for n in ("on_metric", "on_log", "operation", "abort_if") + (("capture_timeline",) if m == "execute" else ()):
-            p.oblige(f"{base}/C12/forwards/{n}", kw.get(n) is call_level[n], prop=P)
+            p.oblige(f"{base}/C12/forwards/{n}", kw.get(n) is call_level[n], prop=None)
         resolved = {"sleep_fn": "sleep", "before_sleep": "before_sleep", "sleeper": "sleeper", "attempt_start_hook": "on_attempt_start",
                     "attempt_end_hook": "on_attempt_end"}
         for tparam, src in resolved.items():
@@ -500,16 +498,16 @@ def t_forward_retry(it):
             expect = pl if k_ else cl
             p.oblige(f"{base}/C16/per-call-{src}-overrides-policy-level", got is expect or (k_ is False and got is cl), prop="C16",
                      detail={"call_level_none": k_})
-            p.oblige(f"{base}/C12/forwards/{tparam}", got is expect or (k_ is False and got is cl), prop=P)
+            p.oblige(f"{base}/C12/forwards/{tparam}", got is expect or (k_ is False and got is cl), prop=None)
         expected = set(target_params(it, {"_run_sync_call": "redress.policy.runner.sync_core:_run_sync_call",
                                           "_run_sync_execute": "redress.policy.runner.sync_core:_run_sync_execute",
                                           "_run_async_call": "redress.policy.runner.async_core:_run_async_call",
                                           "_run_async_execute": "redress.policy.runner.async_core:_run_async_execute"}[tgt]))
-        p.oblige(f"{base}/C12/every-runner-parameter-is-bound", set(kw) == expected, prop=P, detail=sorted(expected ^ set(kw)))
+        p.oblige(f"{base}/C12/every-runner-parameter-is-bound", set(kw) == expected, prop=None, detail=sorted(expected ^ set(kw)))
         v = r[1] if r[0] == "ok" else None
         if isinstance(v, tuple) and v and v[0] == "coro_done":
             v = v[1]
-        p.oblige(f"{base}/C12/returns-the-runner-result", v is captured.get("returned"), prop=P)
+        p.oblige(f"{base}/C12/returns-the-runner-result", v is captured.get("returned"), prop=None)
         p.cover(f"{base}/forwarding")
 
     return h
@@ -530,18 +528,18 @@ def t_forward_policy_to_retry(it):
             kwargs["capture_timeline"] = fopt("capture_timeline", fbool("capture_timeline"))
         r = call_catch(it, BoundV(w.policy, FuncV(it.tree.func(key))), [w.func], kwargs)
         args, kw = getattr(w, "retry_args", ((), {}))
-        p.oblige(f"{key}/C12/delegates-to-the-retry-component-once", w.retry_calls == 1, prop=P)
-        p.oblige(f"{key}/C12/forwards/func", len(args) > 1 and args[1] is w.func, prop=P)
+        p.oblige(f"{key}/C12/delegates-to-the-retry-component-once", w.retry_calls == 1, prop=None)
+        p.oblige(f"{key}/C12/forwards/func", len(args) > 1 and args[1] is w.func, prop=None)
         for n, v in kwargs.items():
-            p.oblige(f"{key}/C12/forwards/{n}", kw.get(n) is v, prop=P)
+            p.oblige(f"{key}/C12/forwards/{n}", kw.get(n) is v, prop=None)
         fin = w.final
         if r[0] == "ok":
             v = r[1]
             if isinstance(v, tuple) and v and v[0] == "coro_done":
                 v = v[1]
-            p.oblige(f"{key}/C12/no-breaker=>same-delivery-as-the-retry-component", fin is not None and v is fin[1], prop=P)
+            p.oblige(f"{key}/C12/no-breaker=>same-delivery-as-the-retry-component", fin is not None and v is fin[1], prop=None)
         else:
-            p.oblige(f"{key}/C12/no-breaker=>same-exception-as-the-retry-component", fin is not None and r[1] is fin[1], prop=P)
+            p.oblige(f"{key}/C12/no-breaker=>same-exception-as-the-retry-component", fin is not None and r[1] is fin[1], prop=None)
         p.cover(f"{key}/forwarding")
 
     return h
@@ -623,6 +621,191 @@ def t_forward_constructors(it):
     return h
 
 
+CONFIG_PARAMS = ["classifier", "result_classifier", "strategy", "strategies", "sleep", "before_sleep", "sleeper", "budget", "attempt_timeout_s",
+                 "deadline_s", "max_attempts", "max_unknown_attempts", "per_class_max_attempts"]
+CFG_FIELD = {"strategy": "default_strategy", "strategies": "class_strategies"}
+
+
+def t_forward_construction(it):
+    """Symbolic execution of the real constructors / from_config / @retry: every configuration value reaches the next layer unchanged
+    (object identity), whatever the local names are (replaces nothing in the AST audit; it is the semantic version of it)."""
+    stdlib.install_clock(it)
+    cap = {}
+    CONFIG_PARAMS = target_params(it, "redress.policy.base:_BaseRetryPolicy.__init__")
+
+    def rec(name, ret=None):
+        def h(it_, fv, args, kwargs, node):
+            cap.setdefault(name, []).append((list(args), dict(kwargs)))
+            return ret(it_, args, kwargs) if ret else None
+
+        return h
+
+    WR = "redress.policy.wrappers:"
+    INNER = {"RetryPolicy": ("redress.policy.retry_sync:Retry", "redress.policy.policy:Policy"),
+             "AsyncRetryPolicy": ("redress.policy.retry_async:AsyncRetry", "redress.policy.async_policy:AsyncPolicy")}
+    CASES = [("wrapper-init", c) for c in INNER] + [("retry-init", c) for c in ("Retry", "AsyncRetry")] + \
+            [("from_config", k) for k in ("redress.policy.retry_sync:Retry", "redress.policy.retry_async:AsyncRetry",
+                                          WR + "RetryPolicy", WR + "AsyncRetryPolicy")] + \
+            [("decorator", m) for m in ("bare-sync", "bare-async", "args-sync", "args-async")]
+
+    base_contracts = dict(it.contracts)
+    base_ext = dict(it.ext_models)
+
+    def h(it):
+        p = it.path
+        cap.clear()
+        it.contracts = dict(base_contracts)
+        it.ext_models = dict(base_ext)
+        kind, what = CASES[p.choose(len(CASES), "case")]
+        kw = {n: EnvFn("arg:" + n) for n in CONFIG_PARAMS}
+        # numeric configuration is symbolic, so arithmetic on the way through (max_attempts + 1) is caught and not "outside the subset"
+        kw.update(max_attempts=fint("cfg_max_attempts"), deadline_s=freal("cfg_deadline_s"),
+                  max_unknown_attempts=fint("cfg_max_unknown_attempts"), attempt_timeout_s=freal("cfg_attempt_timeout_s"))
+
+        def same(x, y):
+            if x is y:
+                return True
+            if isinstance(x, Sym) and isinstance(y, (Sym, int, float)) and not isinstance(y, bool):
+                return eq_formula(x.t, y.t if isinstance(y, Sym) else y)
+            if isinstance(y, Sym) and isinstance(x, (int, float)) and not isinstance(x, bool):
+                return eq_formula(y.t, x)
+            return False
+        if kind == "wrapper-init":
+            rkey, pkey = INNER[what]
+            it.contracts[rkey + ".__init__"] = rec("retry")
+            it.contracts[pkey + ".__init__"] = rec("policy")
+            obj = it.construct(it.tree.cls(WR + what), [], kw)
+            base = f"{WR}{what}.__init__"
+            p.oblige(f"{base}/C12/constructs-one-retry-and-one-policy", len(cap.get("retry", [])) == 1 and len(cap.get("policy", [])) == 1, prop=None)
+            ra, rk = cap["retry"][0] if cap.get("retry") else ([None], {})
+            for n in CONFIG_PARAMS:
+                p.oblige(f"{base}/C12/forwards/{n}", same(rk.get(n), kw[n]), prop=None)
+            p.oblige(f"{base}/C12/no-extra-retry-config", set(rk) <= set(CONFIG_PARAMS), prop=None, detail=sorted(set(rk) - set(CONFIG_PARAMS)))
+            pa, pk = cap["policy"][0] if cap.get("policy") else ([None], {})
+            p.oblige(f"{base}/C12/policy-wraps-that-retry", pk.get("retry") is ra[0] and pk.get("circuit_breaker") is None, prop=None)
+            p.oblige(f"{base}/C12/_policy-is-the-policy", obj.fields.get("_policy") is pa[0], prop=None)
+        elif kind == "retry-init":
+            mod = "redress.policy.retry_sync:" if what == "Retry" else "redress.policy.retry_async:"
+            it.contracts["redress.policy.base:_BaseRetryPolicy.__init__"] = rec("base")
+            kw2 = dict(kw, on_attempt_start=EnvFn("arg:oas"), on_attempt_end=EnvFn("arg:oae"))
+            obj = it.construct(it.tree.cls(mod + what), [], kw2)
+            base = f"{mod}{what}.__init__"
+            p.oblige(f"{base}/C12/base-init-once", len(cap.get("base", [])) == 1, prop=None)
+            ba, bk = cap["base"][0] if cap.get("base") else ([None], {})
+            for n in CONFIG_PARAMS:
+                p.oblige(f"{base}/C12/forwards/{n}", same(bk.get(n), kw[n]), prop=None)
+            p.oblige(f"{base}/C12/attempt-hooks-stored", obj.fields.get("on_attempt_start") is kw2["on_attempt_start"]
+                     and obj.fields.get("on_attempt_end") is kw2["on_attempt_end"], prop=None)
+        elif kind == "from_config":
+            ci = it.tree.cls(what)
+            it.contracts[what + ".__init__"] = rec("init")
+            cfg_ci = it.tree.cls("redress.config:RetryConfig")
+            cfg = Obj(cfg_ci, {CFG_FIELD.get(n, n): kw[n] for n in CONFIG_PARAMS if n != "classifier"}, frozen=True)
+            fi = it.tree.find_method(ci, "from_config")
+            r = call_catch(it, BoundV(ClassV(ci), FuncV(fi)), [cfg], {"classifier": kw["classifier"]})
+            base = what + ".from_config"
+            p.oblige(f"{base}/C12/constructs-once", r[0] == "ok" and len(cap.get("init", [])) == 1, prop=None)
+            ia, ik = cap["init"][0] if cap.get("init") else ([None], {})
+            for n in CONFIG_PARAMS:
+                p.oblige(f"{base}/C12/forwards/{n}", same(ik.get(n), kw[n]), prop=None)
+            p.oblige(f"{base}/C12/no-extra-config", set(ik) <= set(CONFIG_PARAMS), prop=None, detail=sorted(set(ik) - set(CONFIG_PARAMS)))
+            p.oblige(f"{base}/C12/returns-the-constructed-object", r[0] == "ok" and r[1] is ia[0], prop=None)
+        else:
+            is_async = what.endswith("async")
+            bare = what.startswith("bare")
+            hooks = {n: EnvFn("arg:" + n) for n in ("on_metric", "on_log", "abort_if", "on_attempt_start", "on_attempt_end")}
+            op_given = p.choose(2, "operation-given") == 1
+            operation = fstr("operation") if op_given else None
+            if op_given:
+                p.assume(z3.Length(operation.t) > 0)
+            strat_mode = p.choose(3, "strategy-mode")  # 0: neither, 1: strategy, 2: strategies
+            kwd = dict(kw)
+            if strat_mode == 0:
+                kwd["strategy"] = None
+                kwd["strategies"] = None
+            elif strat_mode == 1:
+                kwd["strategies"] = None
+            else:
+                kwd["strategy"] = None
+            default_strat = EnvFn("default-strategy")
+
+            def c_dj(it_, fv, args, kwargs, node):
+                cap.setdefault("dj", []).append((list(args), dict(kwargs)))
+                return default_strat
+
+            it.contracts["redress.strategies:decorrelated_jitter"] = c_dj
+            func = EnvFn("user_func")
+            fname = fstr("func_name")
+            it.env_models["user_func"] = lambda it_, fn, a, k, n: ("called", tuple(a), dict(k))
+            it.ext_models["asyncio.iscoroutinefunction"] = lambda it_, a, k, n: (a[0] is func and is_async)
+            func.attrs["__name__"] = fname
+            result_obj = fref("target_result")
+            raised = {}
+
+            def c_call(it_, fv, args, kwargs, node):
+                cap.setdefault("call", []).append((list(args), dict(kwargs)))
+                if it_.path.choose(2, "target") == 1:
+                    raised["e"] = it_.fresh_exc("target", origin="target")
+                    raise PyRaise(raised["e"])
+                return ("coro_done", result_obj) if is_async else result_obj
+
+            for w in INNER:
+                it.contracts[WR + w + ".__init__"] = rec("init:" + w)
+                it.contracts[WR + w + ".call"] = c_call
+            fi = it.tree.func("redress.policy.decorator:retry")
+            allkw = dict(kwd, operation=operation, **hooks)
+            if bare:
+                r = call_catch(it, FuncV(fi), [func], allkw)
+            else:
+                r = call_catch(it, FuncV(fi), [], allkw)
+                if r[0] == "ok":
+                    r = call_catch(it, r[1], [func], {})
+            base = f"redress.policy.decorator:retry[{what}]"
+            p.oblige(f"{base}/C12/decorating-does-not-raise", r[0] == "ok", prop=None)
+            if r[0] != "ok":
+                return
+            wrapper = r[1]
+            want = "AsyncRetryPolicy" if is_async else "RetryPolicy"
+            other = "RetryPolicy" if is_async else "AsyncRetryPolicy"
+            p.oblige(f"{base}/C12/one-policy-of-the-matching-flavour", len(cap.get("init:" + want, [])) == 1 and not cap.get("init:" + other), prop=None)
+            ia, ik = cap["init:" + want][0] if cap.get("init:" + want) else ([None], {})
+            for n in CONFIG_PARAMS:
+                if n == "strategy" and strat_mode == 0:
+                    p.oblige(f"{base}/C12/default-strategy-injected", ik.get(n) is default_strat and len(cap.get("dj", [])) == 1
+                             and cap["dj"][0] == ([], {"max_s": 5.0}), prop=None)
+                else:
+                    p.oblige(f"{base}/C12/forwards/{n}", same(ik.get(n), kwd[n]), prop=None)
+            p.oblige(f"{base}/C12/no-extra-config", set(ik) <= set(CONFIG_PARAMS), prop=None, detail=sorted(set(ik) - set(CONFIG_PARAMS)))
+            p.oblige(f"{base}/C12/no-call-at-decoration-time", not cap.get("call"), prop=None)
+            a1, k1 = fref("a1"), fref("k1")
+            r2 = call_catch(it, wrapper, [a1], {"k": k1})
+            p.oblige(f"{base}/C12/one-policy.call-per-invocation", len(cap.get("call", [])) == 1, prop=None)
+            ca, ck = cap["call"][0] if cap.get("call") else ([None, None], {})
+            p.oblige(f"{base}/C12/calls-the-policy-built-at-decoration", ca[0] is ia[0], prop=None)
+            for n, v in hooks.items():
+                p.oblige(f"{base}/C12/forwards/{n}", ck.get(n) is v, prop=None)
+            opv = ck.get("operation")
+            if op_given:
+                p.oblige(f"{base}/C12/operation-is-the-given-name", opv is operation, prop=None)
+            else:
+                p.oblige(f"{base}/C12/operation-defaults-to-the-function-name", opv is fname, prop=None)
+            p.oblige(f"{base}/C12/no-unexpected-call-keywords", set(ck) <= set(hooks) | {"operation"}, prop=None, detail=sorted(ck))
+            thunk = ca[1] if len(ca) > 1 else None
+            called = it.call_value(thunk, [], {}) if thunk is not None else None
+            p.oblige(f"{base}/C12/thunk-invokes-func-with-the-given-arguments",
+                     isinstance(called, tuple) and called[0] == "called" and called[1] == (a1,) and called[2] == {"k": k1}, prop=None)
+            if r2[0] == "ok":
+                v = r2[1]
+                if isinstance(v, tuple) and v and v[0] == "coro_done":
+                    v = v[1]
+                p.oblige(f"{base}/C12/returns-what-policy.call-returns", "e" not in raised and v is result_obj, prop=None)
+            else:
+                p.oblige(f"{base}/C12/raises-what-policy.call-raises", r2[1] is raised.get("e"), prop=None)
+        p.cover(f"C12/construction/{kind}/{what.rsplit(':', 1)[-1]}")
+
+    return h
+
+
 TASKS = []
 
 
@@ -645,13 +828,20 @@ TASKS += [
     _pair_task(f"twin.policy.{kd}[{'retry' if wr else 'no-retry'}]", (lambda kd, wr: (lambda it: t_twin_policy(it, kd, wr)))(kd, wr), 3)
     for kd in ("call", "execute") for wr in (True, False)
 ] + [
-    Task("forward.sugar", t_forward_sugar, [P], []),
+    Task("forward.sugar", t_forward_sugar, [P, "C16"], []),
     Task("forward.retry->runner", t_forward_retry, [P, "C16"], ["redress.policy.retry_sync:Retry.call", "redress.policy.retry_sync:Retry.execute",
                                                                 "redress.policy.retry_async:AsyncRetry.call", "redress.policy.retry_async:AsyncRetry.execute",
                                                                 "redress.policy.retry_helpers:_resolve_sleep", "redress.policy.retry_helpers:_resolve_before_sleep",
                                                                 "redress.policy.retry_helpers:_resolve_sleeper", "redress.policy.retry_helpers:_resolve_attempt_hooks"]),
-    Task("forward.policy->retry", t_forward_policy_to_retry, [P], []),
-    Task("forward.constructors", t_forward_constructors, [P], []),
+    Task("forward.policy->retry", t_forward_policy_to_retry, [P, "C16"], []),
+    Task("forward.construction", t_forward_construction, [P, "C16"], [
+        "redress.policy.wrappers:RetryPolicy.__init__", "redress.policy.wrappers:AsyncRetryPolicy.__init__",
+        "redress.policy.wrappers:RetryPolicy.from_config", "redress.policy.wrappers:AsyncRetryPolicy.from_config",
+        "redress.policy.retry_sync:Retry.__init__", "redress.policy.retry_async:AsyncRetry.__init__",
+        "redress.policy.retry_sync:Retry.from_config", "redress.policy.retry_async:AsyncRetry.from_config",
+        "redress.policy.decorator:retry", "redress.policy.decorator:retry.<locals>.decorator",
+        "redress.policy.decorator:retry.<locals>.decorator.<locals>.wrapper",
+        "redress.policy.decorator:retry.<locals>.decorator.<locals>.async_wrapper"]),
 ]
 for _t in TASKS:
     if _t.name.startswith("call~execute"):
